@@ -139,8 +139,30 @@ C08_OnDemandOnce ==      \* instances spawned by the registry for one type: a ne
   \A T \in DOMAIN reg.ent : \A r1, r2 \in {r \in hst.regops : r[3] = "spawn" /\ r[2] = T} :
      r1[4] # r2[4] => (r1[5] = r2[4] \/ r2[5] = r1[4] \/ ~(act[r1[4]].notif = "armed" /\ act[r2[4]].notif = "armed") \/ ~InRegistry(r1[4]) \/ ~InRegistry(r2[4]))
 C08_LockReleased ==      \* the lock is held only during the ping of a fresh instance
-  reg.lock # "free" => (reg.lock \in Client /\ cli[reg.lock].stage = "regping")
+  reg.lock # "free" => (reg.lock \in Tasker /\ cli[reg.lock].stage = "regping")
 C08 == C08_Linearizable /\ C08_OnDemandOnce /\ C08_LockReleased
+
+-----------------------------------------------------------------------------
+(* C09 broker: each publication exactly once, in one common order *)
+Deliv(x) == {j \in 1..Len(hst.hb[x]) : hst.hb[x][j].src = "broker"}
+DelivSet(x) == {hst.hb[x][j].m : j \in Deliv(x)}
+PosOf(x, p) == CHOOSE j \in Deliv(x) : hst.hb[x][j].m = p
+C09_ExactlyOnce ==       \* never twice (also after subscribing again), never to an actor that must not get it
+  /\ \A x \in Used : \A i, j \in Deliv(x) : hst.hb[x][i].m = hst.hb[x][j].m => i = j
+  /\ \A p \in DOMAIN hst.pubs : \A x \in hst.pubs[p].never : x \in Used => p \notin DelivSet(x)
+C09_Delivered ==         \* whoever subscribed before the publish began and is alive when the broker processes it is served
+  \A c \in hst.coll : c[1] \in DOMAIN hst.pubs => (hst.pubs[c[1]].must \cap c[4]) \subseteq c[3]
+C09_CommonOrder ==       \* all subscribers see a topic's publications in one common order ...
+  \A x, y \in Used : \A i, j \in Deliv(x) :
+     LET p == hst.hb[x][i].m  q == hst.hb[x][j].m IN
+     (i < j /\ p \in DelivSet(y) /\ q \in DelivSet(y) /\ p \in DOMAIN hst.pubs /\ q \in DOMAIN hst.pubs /\ hst.pubs[p].T = hst.pubs[q].T)
+        => PosOf(y, p) < PosOf(y, q)
+C09_PublisherOrder ==    \* ... that extends every publisher's own publication order
+  \A x \in Used : \A i, j \in Deliv(x) :
+     LET p == hst.hb[x][i].m  q == hst.hb[x][j].m IN
+     (p[1] = q[1] /\ p[2] < q[2] /\ p \in DOMAIN hst.pubs /\ q \in DOMAIN hst.pubs /\ hst.pubs[p].T = hst.pubs[q].T) => i < j
+C09_BrokerNeverFails == \A b \in Used : IsBrokerType(act[b].ty) => act[b].pc # "failed"
+C09 == C09_ExactlyOnce /\ C09_Delivered /\ C09_CommonOrder /\ C09_PublisherOrder /\ C09_BrokerNeverFails
 
 -----------------------------------------------------------------------------
 (* C10 timers respect their period / delay, die with the actor, never prolong it *)
@@ -182,7 +204,7 @@ C12 == C12_Bound
 
 -----------------------------------------------------------------------------
 (* C13 stream-attached actors handle every item in order and end with the stream *)
-StreamIdx(a) == {j \in 1..Len(hst.hb[a]) : hst.hb[a][j].m[1] = "s." \o a}
+StreamIdx(a) == {j \in 1..Len(hst.hb[a]) : hst.hb[a][j].src = "stream"}
 C13_ItemsInOrder ==      \* the k-th handled item is item k of the stream: each once, in stream order, none skipped
   \A a \in Used : \A j \in StreamIdx(a) :
      hst.hb[a][j].m[2] = Cardinality({i \in StreamIdx(a) : i <= j})
@@ -219,7 +241,7 @@ C16_KeptAlive ==         \* a held child never sees its mailbox closed
 C16_Broadcast ==         \* a copy is handled by b only if b was registered under that bucket when it was sent
   \A b \in Used : \A j \in 1..Len(hst.hb[b]) :
      LET m == hst.hb[b][j].m IN
-     (m[1] \in Actor /\ m[2] >= 1000) => \E r \in hst.bcast : r[1] = m[1] /\ r[2] = m[2] - 1000 /\ b \in r[4]
+     (hst.hb[b][j].src = "parent" /\ m[1] \in Actor) => \E r \in hst.bcast : r[1] = m[1] /\ r[2] = m[2] - 1000 /\ b \in r[4]
 C16 == C16_HeldWhileParent /\ C16_KeptAlive /\ C16_Broadcast /\ C01_AtMostOnce
 
 -----------------------------------------------------------------------------
